@@ -594,9 +594,18 @@ def rule_keygen(ctx):
   repo = ctx.repo
   m = repo.mod("keypair_generator")
   f = repo.func("keypair_generator", "Generator.generate_key")
-  w = sym.Walker(repo, f)
-  w.run()
   bits = P("param", "bits")
+  bad_draws = []
+
+  def draw_model(w_, name, args, kwargs, node, st, recv):
+    # every generate_prime call yields a prime of its own: two draws must not be mistaken for the same value
+    if name == "meth:generate_prime":
+      if not (len(args) == 1 and isinstance(args[0], Poly) and args[0] == sym.mk("fdiv", bits, Poly.const(2))):
+        bad_draws.append(args)
+      return P("prime", "g%d" % next(w_.fresh))
+    return None
+  w = sym.Walker(repo, f, call_model=draw_model)
+  w.run()
   gp = lambda: sym.mk("mcall", SELF, lit("generate_prime"), sym.mk("fdiv", bits, Poly.const(2)))
   probs = []
   loops = [i for i in w.loop_info.values()]
@@ -605,37 +614,81 @@ def rule_keygen(ctx):
   else:
     info = loops[0]
     vis = info["visits"][0]
-    pre = vis["pre"].env
-    if as_poly(pre.get("p")) != gp() or as_poly(pre.get("q")) != gp():
+    def is_draw(x_):
+      return isinstance(x_, Poly) and x_.as_atom() is not None and x_.as_atom().kind == "prime"
+    if bad_draws:
       probs.append("initial primes are not generate_prime(bits // 2) twice")
-    ph, qh = as_poly(vis["head"].env.get("p")), as_poly(vis["head"].env.get("q"))
-    saw_swap_keep = saw_noswap_keep = saw_ret_swap = saw_ret_noswap = False
+    head = vis["head"].env
+    # roles, not names: the primes a pass looks at are loop-carried values or fresh generate_prime(bits // 2) draws; the ordering test names them
+    carried = {nm: as_poly(head[nm]) for nm in info["modified"] if isinstance(head.get(nm), Poly) and head[nm].as_atom() is not None and head[nm].as_atom().kind == "sym"
+               and is_draw(vis["pre_env"].get(nm))}
+    if not carried:
+      probs.append("no prime generated with generate_prime(bits // 2) is carried into the retry loop")
+    cand = list(carried.values())
+
+    def ordering(facts):
+      """(big, small) from the path's comparison of two candidate primes"""
+      for f_ in facts:
+        if f_[0] != "cmp" or f_[1] not in ("Gt", "Lt", "GtE", "LtE") or not isinstance(f_[2], Poly) or not isinstance(f_[3], Poly):
+          continue
+        l_, r_ = f_[2], f_[3]
+        if l_ == r_ or not ((any(l_ == c_ for c_ in cand) or is_draw(l_)) and (any(r_ == c_ for c_ in cand) or is_draw(r_))):
+          continue
+        return (l_, r_, f_[1] in ("Gt",)) if f_[1] in ("Gt", "GtE") else (r_, l_, f_[1] in ("Lt",))
+      return None
+
+    def accepted(facts, a_, b_):
+      bl = sym.mk("bitlen", a_ * b_)
+      eq = any(f_[0] == "cmp" and f_[1] == "Eq" and isinstance(f_[2], Poly) and isinstance(f_[3], Poly) and {repr(f_[2]), repr(f_[3])} == {repr(bl), repr(bits)} for f_ in facts)
+      ne = any(f_[0] == "cmp" and f_[1] == "NotEq" and isinstance(f_[2], Poly) and isinstance(f_[3], Poly) and {repr(f_[2]), repr(f_[3])} == {repr(bl), repr(bits)} for f_ in facts)
+      return True if eq else (False if ne else None)
+    saw = {(True, True): 0, (True, False): 0, (False, True): 0, (False, False): 0}      # (accepted, strict-swap ordering)
+    hl = len(vis["head"].facts)
     for kind, val, s, since, v in info["body_paths"]:
-      gt = any(f_[0] == "cmp" and ((f_[1] == "Gt" and as_poly(f_[2]) == qh and as_poly(f_[3]) == ph) or (f_[1] == "Lt" and as_poly(f_[2]) == ph and as_poly(f_[3]) == qh)) for f_ in s.facts)
-      le = any(f_[0] == "cmp" and ((f_[1] == "LtE" and as_poly(f_[2]) == qh and as_poly(f_[3]) == ph) or (f_[1] == "GtE" and as_poly(f_[2]) == ph and as_poly(f_[3]) == qh)) for f_ in s.facts)
-      big, small = (qh, ph) if gt else (ph, qh)
-      if not (gt or le):
+      if v is not vis:
+        continue
+      newf = s.facts[hl:]
+      od = ordering(newf)
+      if od is None:
         probs.append("a retry iteration does not order the primes (if q > p: swap) before testing the size")
         continue
+      big, small, strict = od
+      acc = accepted(newf, big, small)
+      if acc is None:
+        probs.append("a pass does not test bit_length(p * q) == bits")
+        continue
       if kind == "return":
-        okv = isinstance(val, Seq) and len(val.items) == 2 and as_poly(val.items[0]) == big and as_poly(val.items[1]) == small
-        okb = any(f_[0] == "cmp" and f_[1] == "Eq" and as_poly(f_[2]) == sym.mk("bitlen", ph * qh) and as_poly(f_[3]) == bits for f_ in s.facts)
-        if not (okv and okb):
+        if not (acc and isinstance(val, Seq) and len(val.items) == 2 and as_poly(val.items[0]) == big and as_poly(val.items[1]) == small):
           probs.append("accepted key is not (larger, smaller) under bit_length(p*q) == bits")
-        saw_ret_swap |= gt
-        saw_ret_noswap |= le
+        saw[(True, strict)] += 1
+      elif kind == "break":
+        if not acc:
+          probs.append("the retry loop is left although the modulus does not have `bits` bits")
+        saw[(True, strict)] += 1
       elif kind in ("fall", "continue"):
-        pe, qe = as_poly(s.env.get("p")), as_poly(s.env.get("q"))
-        if pe != big:
+        if acc:
+          probs.append("a key of the right size is not accepted")
+        ends = {nm: as_poly(s.env.get(nm)) if isinstance(s.env.get(nm), Poly) else None for nm in carried}
+        if not any(e_ is not None and e_ == big for e_ in ends.values()):
           probs.append("on retry the larger prime is not the one that is kept (keypair.js discards the smaller one)")
-        if qe != gp():
-          probs.append("on retry q is not regenerated with generate_prime(bits // 2)")
-        saw_swap_keep |= gt
-        saw_noswap_keep |= le
+        for nm, e_ in ends.items():
+          if e_ is None or not (e_ == big or (is_draw(e_) and e_ != small and e_ != big)):
+            probs.append("on retry q is not regenerated with generate_prime(bits // 2)")
+        saw[(False, strict)] += 1
       else:
         probs.append("retry loop left by %s" % kind)
-    if not (saw_swap_keep and saw_noswap_keep and saw_ret_swap and saw_ret_noswap):
+    if not all(saw.values()):
       probs.append("the swap `if q > p` is not evaluated in every iteration of the retry loop")
+    # what is handed back after a `break`: the ordered pair of that pass
+    for kind, val, s in w.terminals:
+      if kind != "return" or not s.tags == [] or any(bp[1] is val for bp in info["body_paths"]) or not isinstance(val, Seq):
+        continue          # (the fall-off after `while True` is unreachable; a pair returned after the loop came through a `break`)
+      od = ordering(s.facts)
+      endless = isinstance(info["node"], ast.While) and isinstance(info["node"].test, ast.Constant) and bool(info["node"].test.value)
+      if od is None and endless:
+        continue          # `while True` has no normal exit: the state after it is only reached through a break
+      if od is None or not (isinstance(val, Seq) and len(val.items) == 2 and as_poly(val.items[0]) == od[0] and as_poly(val.items[1]) == od[1]):
+        probs.append("accepted key is not (larger, smaller) under bit_length(p*q) == bits")
   ctx.record(R, f.where, "retry loop: order, test n.bit_length() == bits, regenerate the smaller prime", not probs, "; ".join(sorted(set(probs))) or
              "each iteration swaps so that p >= q, accepts iff the modulus has `bits` bits, otherwise replaces q")
   # wheel table: increments visit exactly the residues coprime to 30 starting from 1
